@@ -308,7 +308,7 @@ func c08r5(c *Ctx, id string) {
 	fn := oi.need
 	c.need(fn != nil, id, "the catch-up filter: the (uint64) bool observer method the gate consults directly (needCatchup)")
 	recv, p := fn.Params[0].Name(), fn.Params[1].Name()
-	F, need := recv+".catchupSeqNo", recv+".isCatchupNeed"
+	F, need := recv+"."+oi.fCatchSeq, recv+"."+oi.fCatchNeed
 	h := &Harness{Fn: fn, Groups: []Group{{Atoms: []string{p, F}, Unsigned: true}}, Bools: []string{need}, Quiet: quietLog}
 	c.oae(id, fname(fn), fn.Pos(), h, func(st *State, out *Outcome) string {
 		if out.Panicked {
@@ -342,10 +342,10 @@ func c08r5(c *Ctx, id string) {
 	h2 := &Harness{Fn: sc, Groups: []Group{{Atoms: []string{sp}, Unsigned: true}}}
 	r2 := sc.Params[0].Name()
 	c.oae(id, fname(sc), sc.Pos(), h2, func(st *State, out *Outcome) string {
-		if avString(out.Final(r2+".catchupSeqNo")) != sp {
-			return "catch-up position ← " + avString(out.Final(r2+".catchupSeqNo")) + ", expected the parameter"
+		if avString(out.Final(r2+"."+oi.fCatchSeq)) != sp {
+			return "catch-up position ← " + avString(out.Final(r2+"."+oi.fCatchSeq)) + ", expected the parameter"
 		}
-		if b, ok := out.Final(r2 + ".isCatchupNeed").(avBool); !ok || !b.b {
+		if b, ok := out.Final(r2 + "." + oi.fCatchNeed).(avBool); !ok || !b.b {
 			return "the filter is not armed"
 		}
 		return ""
@@ -354,7 +354,7 @@ func c08r5(c *Ctx, id string) {
 	gateOAE(c, id, oi, "filter")
 	gateArgsRule(c, id, oi)
 	// no other writer of the two fields
-	for _, fname_ := range []string{"catchupSeqNo", "isCatchupNeed"} {
+	for _, fname_ := range []string{oi.fCatchSeq, oi.fCatchNeed} {
 		f := w.Field("couchbase", oi.typ.Obj().Name(), fname_)
 		for _, fs := range w.fieldStores(f) {
 			if _, isAlloc := fs.Store.Addr.(*ssa.FieldAddr).X.(*ssa.Alloc); isAlloc {
